@@ -34,13 +34,15 @@ TIERS = {
     "quick": {"shards": 4, "cases": 3000, "timeout": 300},
     "thorough": {"shards": 16, "cases": 9000, "timeout": 3000},
 }
-FLOORS = {"quick": {"parents_whose_oldest_commits_pin_nothing": 300, "component_builds_inside_one_long_bump": 1500,
+FLOORS = {"quick": {"ticket_commits_traced_to_their_component_build": 7000,
+                    "parents_whose_oldest_commits_pin_nothing": 300, "component_builds_inside_one_long_bump": 1500,
                     "distinct_nontrivial": 1200, "included_at_entries_observed": 3000,
                     "component_build_x_parent_branch_decisions": 5000, "dependency_graphs": 1000,
                     "cyclic_graphs_rejected": 300, "parent_builds_reported_without_own_commit": 100,
                     "components_with_an_unreadable_first_version_location": 100,
                     "scenarios_with_refs_read_from_git_directories": 100},
-          "thorough": {"parents_whose_oldest_commits_pin_nothing": 1200, "component_builds_inside_one_long_bump": 1500,
+          "thorough": {"ticket_commits_traced_to_their_component_build": 28000,
+                       "parents_whose_oldest_commits_pin_nothing": 1200, "component_builds_inside_one_long_bump": 1500,
                        "distinct_nontrivial": 25000, "included_at_entries_observed": 100000,
                        "component_build_x_parent_branch_decisions": 200000, "dependency_graphs": 40000,
                        "cyclic_graphs_rejected": 10000, "parent_builds_reported_without_own_commit": 4000,
